@@ -112,7 +112,7 @@ pub mod tempfile {
                         &&& final(w).files == old(w).files.insert(t.pathv(), t.ino())
                         &&& final(w).inodes == old(w).inodes.insert(
                             t.ino(),
-                            Inode { content: Seq::<u8>::empty(), writable: true, mode: 0o600, mtime: trunc(old(w).now, old(w).gran), atime: trunc(old(w).now, old(w).gran), synced: false },
+                            Inode { content: Seq::<u8>::empty(), writable: true, mode: 0o600, mtime: trunc(old(w).now, old(w).gran), atime: trunc(old(w).now, old(w).gran), synced: false, flush_failed: false },
                         )
                         &&& final(w).owned == old(w).owned.insert(t.pathv())
                     },
@@ -183,7 +183,7 @@ pub mod tempfile {
                 &&& f.can_write() && f.offset() == 0
                 &&& fin.inodes == old.inodes.insert(
                     f.ino(),
-                    Inode { content: Seq::<u8>::empty(), writable: true, mode: 0o600, mtime: trunc(old.now, old.gran), atime: trunc(old.now, old.gran), synced: false },
+                    Inode { content: Seq::<u8>::empty(), writable: true, mode: 0o600, mtime: trunc(old.now, old.gran), atime: trunc(old.now, old.gran), synced: false, flush_failed: false },
                 )
             },
             Err(e) => fin.inodes == old.inodes && fin.hard_faults == old.hard_faults + 1,
